@@ -8,7 +8,8 @@
     jsonb_malformed   C10  corrupted documents through ParseJSONB / DecodeType(3802) (ok / PANIC)
     numeric_raw       C05  the inputs of numeric_malformed, value-level model = implementation (spec silent)
     jsonb_raw         C06  the inputs of jsonb_malformed, value-level model = implementation (spec silent)
-    jsonb_alias       C10  hostile HAS_OFF end offset 0: k aliasing children per level, nested (A35)
+    jsonb_alias       C10  hostile HAS_OFF end offset 0: k aliasing children per level, nested (A35);
+                           containers of 70 000 … 200 000 entries without any HAS_OFF (fix 10: linear offsets)
 
   Canonical text of a decoded value: `~` nil/null, `T`/`F`, `s<hex>` string, `[a,b]`, `{<hexkey>:v,…}` sorted by key,
   numbers `n+<mant>e<exp>` / `n-<mant>e<exp>` meaning ±mant·10000^exp exactly (zero is `n+0e0`), `nNaN`, `n+Inf`, `n-Inf`.
@@ -241,7 +242,7 @@ def jsonbGen (seed idx size : Nat) : Case :=
     (if st.xk && st.xv then ["xboth"] else []) ++ (if st.xa then ["xarr"] else []) ++
     (if st.empty then ["empty"] else []) ++ (if st.nums > 0 then ["nums"] else []) ++
     (if st.xv then ["kf:A21"] else []) ++ (if st.empty then ["kf:A22"] else []) ++
-    (if st.big then ["kf:J10K"] else [])
+    (if st.big then ["big"] else [])
   { tags, model := showM showView m, spec := showView view,
     args := [toString via, hexRle blob, specHints] ++ (if modelHints == specHints then [] else [modelHints]) }
 
@@ -366,13 +367,28 @@ def aliasDoc (k : Nat) : Nat → Bytes
     let pair := le 4 (Spec.mkEntry 4 true 0) ++ le 4 (Spec.mkEntry 5 false inner.length)
     le 4 (2 * k + 0x40000000) ++ (List.replicate k pair).flatten ++ inner
 
-def aliasGen (_seed idx _size : Nat) : Case :=
-  let (k, d) := [(2, 3), (2, 8), (3, 6), (2, 16), (2, 24), (4, 12), (2, 32), (8, 10), (2, 48), (2, 200), (3, 400), (8, 1000)].getD (idx % 12) (2, 3)
-  let via := 2 + (idx / 12) % 2
-  let blob := aliasDoc k d
-  { tags := [s!"k={k}", s!"depth={d}", s!"via={via}"], model := malformedModel via blob, spec := "ok",
-    args := [toString via, hexRle blob] }
+/-- fix 10: a container with `n` children whose JEntries carry no HAS_OFF flag at all (null entries with
+length field 1, no data area): the former `endOffset` scanned back to entry 0 for every entry — n²/2 steps,
+which is why the count was capped at 10 000.  The forward pass is linear.  (Object: every key fails its
+bounds check and is "", every value is null.) -/
+def flatHostile (isObj : Bool) (n : Nat) : Bytes :=
+  le 4 (n + (if isObj then 0x20000000 else 0x40000000)) ++
+    (List.replicate (if isObj then 2 * n else n) (le 4 (Spec.mkEntry 4 false 1))).flatten
 
-def jsonbAlias : Family := { name := "jsonb_alias", gen := aliasGen, eval := malformedEval, fixed := 24 }
+def aliasGen (_seed idx _size : Nat) : Case :=
+  if idx < 24 then
+    let (k, d) := [(2, 3), (2, 8), (3, 6), (2, 16), (2, 24), (4, 12), (2, 32), (8, 10), (2, 48), (2, 200), (3, 400), (8, 1000)].getD (idx % 12) (2, 3)
+    let via := 2 + (idx / 12) % 2
+    let blob := aliasDoc k d
+    { tags := [s!"k={k}", s!"depth={d}", s!"via={via}"], model := malformedModel via blob, spec := "ok",
+      args := [toString via, hexRle blob] }
+  else
+    let (isObj, n) := [(false, 70000), (false, 200000), (true, 100000)].getD ((idx - 24) % 3) (false, 70000)
+    let via := 2 + ((idx - 24) / 3) % 2
+    let blob := flatHostile isObj n
+    { tags := [s!"flat={if isObj then "obj" else "arr"}", s!"n={n}", s!"via={via}"], model := malformedModel via blob,
+      spec := "ok", args := [toString via, hexRle blob] }
+
+def jsonbAlias : Family := { name := "jsonb_alias", gen := aliasGen, eval := malformedEval, fixed := 30 }
 
 end Driver.Fam
